@@ -226,13 +226,15 @@ def l2_check(run):
                     else:
                         try:
                             cls = tzdb.classify(zone, w)
+                            # the calendar day the statement names does not exist in this zone
+                            # (Pacific/Kiritimati 1994-12-31, Pacific/Apia 2011-12-30): no answer
+                            # can satisfy it, with or without keep_time
+                            if tzdb.classify(zone, wf + [0, 0, 0, 0]) == "skipped" and tzdb.classify(zone, wf + [23, 59, 59, 999999]) == "skipped":
+                                continue
                         except (OverflowError, ValueError):
                             continue
                         if cls == "skipped" and not keep:
-                            # midnight does not exist: the day starts at the end of the gap - if the
-                            # whole calendar day is missing the statement has no answer
-                            if tzdb.classify(zone, wf + [23, 59, 59, 999999]) == "skipped":
-                                continue
+                            # midnight does not exist: the day starts at the end of the gap
                             t = tzdb.first_instant_at_or_after_wall(zone, w)
                             rf, off, _ = tzdb.render(zone, t)
                             n += 1
